@@ -3,6 +3,7 @@ import Driver.Dominance
 import Driver.Archive
 import Driver.Catchment
 import Driver.Suppa
+import Driver.Naming
 import Driver.Csv
 import Driver.Params
 import Driver.BoolArchive
@@ -19,6 +20,11 @@ def main (args : List String) : IO UInt32 := do
   | ["portability"] => Driver.runPure Driver.BoolArchive.stepPort; return 0
   | ["params"] => Driver.run ({} : Driver.Params.St) Driver.Params.step; return 0
   | ["csv"] => Driver.runPure Driver.Csv.step; return 0
+  | ["naming"] =>
+    let e ← IO.getEnv "VERIF_C12_VARIANT"
+    Driver.runPure (Driver.Naming.step (if e == some "current" then .current else .fixed)); return 0
+  | ["naming-fixed"] => Driver.runPure (Driver.Naming.step .fixed); return 0
+  | ["naming-current"] => Driver.runPure (Driver.Naming.step .current); return 0
   | ["suppa"] => Driver.run ({} : Driver.Suppa.St) Driver.Suppa.step; return 0
   | ["catchment"] => Driver.run ({} : Driver.Catchment.St) Driver.Catchment.step; return 0
   | _ =>
